@@ -45,6 +45,8 @@ class Gen:
         self.producer = {}  # name -> op
         self.used = {}
         self.probe_tags = []
+        # swarm: every run enables a random subset of the op kinds (many short, diverse runs beat uniform ones)
+        self.swarm_off = {k for k in ("scale", "sum", "mean", "sumdim", "reshape", "transpose", "slice", "cat", "stack", "outer", "matmul", "take", "where", "unbind", "split") if rng.random() < 0.3}
 
     # ------------------------------------------------------------------
     def fresh(self):
@@ -142,6 +144,7 @@ class Gen:
         ]
         if allow_multi:
             ops += [("unbind", 1), ("split", 0.7)]
+        ops = [(o, w) for o, w in ops if o not in self.swarm_off]
         names = [o for o, _ in ops]
         weights = [w for _, w in ops]
         target = len(self.spec["nodes"]) + n_nodes
